@@ -1,10 +1,14 @@
-"""Regenerate every translated Lean model (lean/Gen/*.lean) from /repo's current sources."""
+"""Regenerate every generated Lean file (lean/Gen/*.lean): scalar templates instantiated at
+Float and ℝ, and the models translated from /repo's current Python sources."""
 import os
 import sys
-sys.path.insert(0, os.path.join(os.path.dirname(os.path.abspath(__file__)), '..', 'harness'))
+HERE = os.path.dirname(os.path.abspath(__file__))
+sys.path.insert(0, HERE)
 
 
 def main():
+    import instantiate
+    instantiate.main()
     try:
         import py2lean_targets
     except ImportError:
